@@ -42,7 +42,7 @@ func (i *ipfsAccessController) CanAppend(entry logac.LogEntry, p identityprovide
 	i.muWriteAccess.RLock()
 	defer i.muWriteAccess.RUnlock()
 
-	if err := accesscontroller.VerifyEntryIdentity(entry); err != nil {
+	if err := accesscontroller.VerifyEntryIdentity(entry, p); err != nil {
 		return fmt.Errorf("not allowed: %w", err)
 	}
 
